@@ -136,6 +136,12 @@ reg("C15",
     "Comments and script/style text are constructed inside the codec's repertoire (no character references there). UTF-16 output is a recorded finding; noscript raw text (C07) is excluded by construction and counted.",
     "DESIGN.md §3 C15")
 
+reg("C12",
+    "model-based stateful testing (Hypothesis RuleBasedStateMachine) of object reuse: generated histories of parse / parseFragment / strict-mode aborts / faulting input sources / serialize on shared objects and read-level thread schedules of independent parsers, compared step by step with brand-new objects and, for a sample, with a fresh interpreter",
+    "Exploration: histories of <= 8 (thorough 12) steps over shared HTMLParser(etree), HTMLParser(dom), HTMLParser(strict) and four HTMLSerializer objects; aborts by ParseError at the first error and by IOError injected after k reads; 'threads' steps run 2-3 shared parsers concurrently with sources gated so that the harness releases one read at a time along a generated schedule. After every step the result must equal that of brand-new objects. Held on everything explored.",
+    "Thread interleavings are owned at read() granularity only; preemptive races inside a token are out of reach. One defect (phase-object state leaking after an aborted parse) repaired.",
+    "DESIGN.md §3 C12")
+
 NOT_APPLICABLE = {}
 
 
